@@ -269,7 +269,7 @@ def compare_outcomes(name, tau, tout, tcalls, lout, lcalls):
     return res
 
 
-HKL_FAMILY = ("sysabs", "sysabs_unique", "genhkl_base", "genhkl_all", "genhkl_unique")
+HKL_FAMILY = ("sysabs", "sysabs_unique", "genhkl_base", "genhkl", "genhkl_all", "genhkl_unique")
 
 
 def compare_hkl(name, tmod, lmod):
@@ -321,6 +321,23 @@ def compare_hkl(name, tmod, lmod):
             if vt[c]["signature"] != vl[c]["signature"] or vt[c]["syscond_ok"] != vl[c]["syscond_ok"]:
                 differ.append((c[0], c[1]))
         out.append(("result", not differ, "evaluated on the same band models the two walks return different rows / sort keys for (Laue, cell choice) %s" % (differ[:3],)))
+        return out
+    if name == "genhkl":
+        # the superseded triclinic walk: both copies evaluated as a whole on the same band models (props/hklrun.py)
+        from props import hklrun
+        ts = tables.extract_segm(tmod.rel)
+        hits = tables.select_segm(ts, "-1", "standard", "triclinic")
+        if len(hits) != 1:
+            raise AnalysisError("no triclinic cone table to build the band models for genhkl from")
+        sig = []
+        for mod_ in (tmod, lmod):
+            per = []
+            for seed, flag in ((1, True), (2, None), (3, True)):
+                r_ = hklrun.run_walk(mod_, hits[0]["table"], "-1", "standard", "triclinic", seed, flag, fname="genhkl")
+                per.append((r_.get("error"), sorted(r_.get("rows", [])), r_.get("keys_ok"), r_.get("col_ok"),
+                            sorted({(c_[2], c_[3]) for c_ in r_.get("consulted", [])}, key=repr)))
+            sig.append(per)
+        out.append(("result", sig[0] == sig[1], "evaluated on the same band models the two copies of genhkl return different rows / sort keys / consult sysabs differently"))
         return out
     if name in ("genhkl_all", "genhkl_unique"):
         from props.hklwrap import Wrap
